@@ -336,6 +336,82 @@ def clone_cycle_scripts():
     return out
 
 
+WEIRD_NUMS = ["3x4y", "1e", "0x", "--1", "1_0", '"5"', "none", "true", "1+2j", "2j", "-0.25j", "1e400", "-1e400", "nan", "1,2",
+              "0x1g", "1.2.3", "5.", ".5", "+", "-", "1e+", "٣", "1/2", "abc", "me", "0b11", "1e5", "-0", "''", '"a b"', "(1)"]
+
+
+def numeric_slot_scripts():
+    """every clause that takes a number, given something that is not quite one (also complex literals, quoted numbers,
+    keywords): the build succeeds or refuses with a parse / resolve / value error"""
+    out = []
+    S = core.SCRATCH
+    for w in WEIRD_NUMS:
+        slots = {
+            "framer-at": ["house h", "  framer f be active at %s" % w, "    frame a"],
+            "bid-at": ["house h", "  framer f be active", "    frame a", "      bid start g at %s" % w, "  framer g be inactive", "    frame b"],
+            "timeout": ["house h", "  framer f be active", "    frame a", "      timeout %s" % w, "    frame b"],
+            "repeat": ["house h", "  framer f be active", "    frame a", "      repeat %s" % w, "    frame b"],
+            "server-at": ["house h", "  server s at %s" % w, "  framer f be active", "    frame a"],
+            "server-per": ["house h", "  server s per period %s" % w, "  framer f be active", "    frame a"],
+            "server-per2": ["house h", "  server s per period 1 prefix %s" % w, "  framer f be active", "    frame a"],
+            "logger-at": ["house h", "  logger lg to %s/lg at %s" % (S, w), "    log l1 on update", "      loggee .c0",
+                          "  framer f be active", "    frame a"],
+            "logger-flush": ["house h", "  logger lg to %s/lg flush %s" % (S, w), "    log l1 on update", "      loggee .c0",
+                             "  framer f be active", "    frame a"],
+            "logger-keep": ["house h", "  logger lg to %s/lg keep %s cycle %s size %s" % (S, w, w, w), "    log l1 on update",
+                            "      loggee .c0", "  framer f be active", "    frame a"],
+            "need-tol": ["house h", "  init .x with 0", "  framer f be active", "    frame a", "      go b if .x == 1 +- %s" % w, "    frame b"],
+            "elapsed-goal": ["house h", "  framer f be active", "    frame a", "      go b if elapsed >= %s" % w, "    frame b"],
+            "inc": ["house h", "  init .x with 0", "  framer f be active", "    frame a", "      inc .x with %s" % w],
+        }
+        for k, L in slots.items():
+            out.append(("numslot-" + k, "\n".join(L) + "\n"))
+    return out
+
+
+def name_clash_scripts():
+    """names that meet: a named clone whose full name (<framer>_<tag>) is the name of another framer, of the moot itself or
+    of a second clone; actors whose instance name (`as ...`) is the name of a builtin actor kind, in frames that conditions
+    with markers refer to; frames, framers, loggers, logs and servers that share a name"""
+    out = []
+    for order in (0, 1, 2):
+        for tag, other in (("tag", "big_tag"), ("tag", "big_tag2"), ("mo", "big_mo"), ("big", "big_big"), ("tag", "mo")):
+            blocks = [["  framer big be active first a", "    frame a", "      aux mo as %s" % tag],
+                      ["  framer %s be %s first z" % (other, "active" if other != "mo" else "moot"), "    frame z"],
+                      ["  framer mo be moot first x", "    frame x"]]
+            if other == "mo":
+                blocks = blocks[:1] + blocks[2:]
+            blocks = blocks[order % len(blocks):] + blocks[:order % len(blocks)]
+            out.append(("nameclash-clone", "\n".join(["house h"] + [l for b in blocks for l in b]) + "\n"))
+        # two clones under one tag, in one frame / in two frames / reared
+        for second in ("      aux mo as tag", "    frame b\n      aux mo as tag", "    frame b\n      rear mo as tag be aux in frame a",
+                       "      aux mo2 as tag"):
+            L = ["house h", "  framer big be active first a", "    frame a", "      aux mo as tag", second,
+                 "  framer mo be moot first x", "    frame x", "  framer mo2 be moot first x", "    frame x"]
+            out.append(("nameclash-tag", "\n".join(L) + "\n"))
+    kinds = ["marker update", "marker change", "marker", "poke direct", "poke indirect", "inc direct", "need always", "need marker update",
+             "transiter", "suspender", "rearer", "razer", "printer", "want start", "fiat start", "complete done", "deactivator",
+             "need update", "need change", "need direct", "need done", "restarter", "closer log", "vf rec", "doer"]
+    for kn in kinds:
+        for cond in (".x is updated in frame g", ".x is changed in frame g", ".x is updated in frame g by mk", ".x == 1"):
+            for atctx in ("enter", "recur", "exit"):
+                L = ["house h", "  init .x with 0", "  framer big be active first g", "    frame g",
+                     '      do vf rec as %s with tag "t" at %s' % (kn, atctx), "      go k if elapsed >= 1.0",
+                     "    frame k", "      go g if %s" % cond]
+                out.append(("nameclash-actor", "\n".join(L) + "\n"))
+    for a, b in (("framer f be active", "framer f be inactive"), ("logger f", "framer f be active"),
+                 ("server f", "framer f be active"), ("framer f be active", "server f"), ("logger f", "server f"),
+                 ("server f", "logger f")):
+        def blk(x):
+            if x.startswith("framer"):
+                return ["  " + x, "    frame a"]
+            if x.startswith("logger"):
+                return ["  %s to %s/lg" % (x, core.SCRATCH), "    log l1 on update", "      loggee .c0"]
+            return ["  " + x]
+        out.append(("nameclash-tasker", "\n".join(["house h"] + blk(a) + blk(b)) + "\n"))
+    return out
+
+
 def worker(ctx, job):
     rng = ctx.rng
     plans = job["plans"]
@@ -408,7 +484,7 @@ def run(ctx):
     ctx.extra["refgraph_cases_3_frames_exhaustive"] = len(graphs)
     if not ctx.quick:
         graphs += refgraph_cases(4, nsample=40000, rng=ctx.rng)
-    graphs += marker_scripts() + clone_cycle_scripts()
+    graphs += marker_scripts() + clone_cycle_scripts() + numeric_slot_scripts() + name_clash_scripts()
     ctx.shard([{"plans": plans, "n": total // n, "budget": 5.0, "refgraphs": graphs[i::n]} for i in range(n)],
               timeout=ctx.pick(400, 3000))
     for k in ("over", "under", "next", "clone"):
